@@ -62,6 +62,8 @@ func (g gate) close() {
 func raceAcquire(p unsafe.Pointer)      { runtime.RaceAcquire(p) }
 func raceRelease(p unsafe.Pointer)      { runtime.RaceRelease(p) }
 func raceReleaseMerge(p unsafe.Pointer) { runtime.RaceReleaseMerge(p) }
+func raceRead(p unsafe.Pointer)         { runtime.RaceRead(p) }
+func raceWrite(p unsafe.Pointer)        { runtime.RaceWrite(p) }
 
 // RaceMode reports whether the binary was built with -race.
 const RaceMode = true
